@@ -549,6 +549,10 @@ func TestC04Proofs(t *testing.T) {
 				if v, ok := m[string(e.Key)]; !ok || !bytes.Equal(v, e.Value) {
 					fail("writelog-lies", "honest proof write log contains %x=%x which is not in the tree", e.Key, e.Value)
 				}
+				if e.Value == nil {
+					// (a nil value is how a write log spells a DELETION: LogEntry.Type() == LogDelete, ApplyWriteLog removes the key)
+					fail("writelog-lies", "honest proof write log reports the present key %x (empty value) as deleted (nil value)", e.Key)
+				}
 			}
 			for _, k := range f.askedKeys(q) {
 				if got, want := walk(rootPtr, 0, k), modelAnswer(m, k); !sameAnswer(got, want) {
@@ -644,6 +648,9 @@ func TestC04Proofs(t *testing.T) {
 				for _, e := range wl {
 					if v, ok := m[string(e.Key)]; !ok || !bytes.Equal(v, e.Value) {
 						fail("writelog-lies", "accepted mutant (%s) yields write log entry %x=%x which is not in the tree", kind, e.Key, e.Value)
+					}
+					if e.Value == nil {
+						fail("writelog-lies", "accepted mutant (%s) yields a DELETION entry for the present key %x", kind, e.Key)
 					}
 				}
 			}
